@@ -17,9 +17,18 @@ struct Scripted {
     plan: Vec<usize>,
     k: usize,
     reads: Vec<usize>,
+    /// the reader's `fail.0`-th read (0-based, counted over the whole life of the reader) fails with this error kind
+    fail: Option<(usize, std::io::ErrorKind)>,
+    nread: usize,
 }
 impl Read for Scripted {
     fn read(&mut self, buf: &mut [u8]) -> std::io::Result<usize> {
+        if let Some((at, kind)) = self.fail {
+            self.nread += 1;
+            if self.nread - 1 == at {
+                return Err(std::io::Error::new(kind, "scripted read failure"));
+            }
+        }
         let rem = self.data.len() - self.pos;
         if rem == 0 || buf.is_empty() {
             return Ok(0);
@@ -54,12 +63,37 @@ struct Out {
     seen: BTreeMap<(Vec<u8>, Option<(u32, u32)>), (u64, Vec<usize>)>,
     evaluations: u64,
     start_nonzero: u64,
+    failing_reader_err: u64,
+    failing_reader_ok: u64,
+}
+
+/// Checksum.tla `Contract`: a reader whose k-th read FAILS.  The call may report the error (or, for a transient kind, retry and
+/// succeed) - but whenever it returns Ok(v), v must still be Sum of the WHOLE content: a checksum of the part read so far is wrong.
+fn eval_fail(out: &mut Out, data: &[u8], plan: &[usize], at: usize, kind: std::io::ErrorKind) {
+    out.evaluations += 1;
+    let r = catch_unwind(AssertUnwindSafe(|| {
+        let mut rd = Scripted { data: data.to_vec(), pos: 0, plan: plan.to_vec(), k: 0, reads: vec![], fail: Some((at, kind)), nread: 0 };
+        let m = rd.checksum(ChecksumType::Modular).ok()?;
+        Some((m, rd.reads.clone()))
+    }));
+    match r {
+        Ok(Some((m, mut reads))) => {
+            out.failing_reader_ok += 1;
+            reads.push(0); // marks the failing-reader records (a read of 0 bytes never occurs in a plan)
+            let e = out.seen.entry((data.to_vec(), Some((m, 0)))).or_insert((0, reads));
+            e.0 += 1;
+        }
+        Ok(None) => out.failing_reader_err += 1,
+        Err(_) => {
+            out.seen.entry((data.to_vec(), None)).or_insert((0, plan.to_vec())).0 += 1;
+        }
+    }
 }
 
 fn eval(out: &mut Out, data: &[u8], plan: &[usize], pre_seek: bool) {
     out.evaluations += 1;
     let r = catch_unwind(AssertUnwindSafe(|| {
-        let mut rd = Scripted { data: data.to_vec(), pos: 0, plan: plan.to_vec(), k: 0, reads: vec![] };
+        let mut rd = Scripted { data: data.to_vec(), pos: 0, plan: plan.to_vec(), k: 0, reads: vec![], fail: None, nread: 0 };
         if pre_seek && !data.is_empty() {
             // the checksum must not depend on where the cursor was left
             rd.pos = data.len() / 2;
@@ -86,7 +120,7 @@ fn main() {
     let nrand: usize = a[4].parse().unwrap();
     let big = a[5] == "1";
     let mut rng = StdRng::seed_from_u64(seed);
-    let mut out = Out { seen: BTreeMap::new(), evaluations: 0, start_nonzero: 0 };
+    let mut out = Out { seen: BTreeMap::new(), evaluations: 0, start_nonzero: 0, failing_reader_err: 0, failing_reader_ok: 0 };
 
     // 1. every path of the TLC graph: every composition of every length
     let mut edges: HashMap<(u64, u64), Vec<u64>> = HashMap::new();
@@ -106,6 +140,14 @@ fn main() {
                 // same chunking with seeded random content of the same length
                 let rnd: Vec<u8> = (0..n).map(|_| rng.gen()).collect();
                 eval(&mut out, &rnd, &plan, paths_total % 7 == 0);
+                // the same chunking behind a reader that fails at its j-th read (every j, two error kinds) - short files only
+                if n <= 7 {
+                    for j in 0..=plan.len() {
+                        eval_fail(&mut out, &rnd, &plan, j, std::io::ErrorKind::Interrupted);
+                        eval_fail(&mut out, &rnd, &plan, j, std::io::ErrorKind::Other);
+                        eval_fail(&mut out, &data, &plan, j, std::io::ErrorKind::Other);
+                    }
+                }
                 continue;
             }
             if let Some(ks) = edges.get(&(n, pos)) {
@@ -145,6 +187,12 @@ fn main() {
                             }
                         }
                     }
+                    if d == 1 {
+                        for j in 0..4 {
+                            eval_fail(&mut out, &data, &[8192], j, std::io::ErrorKind::Interrupted);
+                            eval_fail(&mut out, &data, &[4096, 4097], j, std::io::ErrorKind::UnexpectedEof);
+                        }
+                    }
                     // seeded mixtures of small and buffer-sized reads
                     for _ in 0..6 {
                         let sizes = [1usize, 2, 3, 5, 7, 4095, 4096, 8191, 8192, 8193];
@@ -172,5 +220,6 @@ fn main() {
         }
     }
     println!("{}", json!({"evaluations": out.evaluations, "records": records, "chunkings_from_graph": paths_total,
-                          "with_displaced_cursor": out.start_nonzero, "errors_or_panics": errors, "samples": samples}));
+                          "with_displaced_cursor": out.start_nonzero,
+                          "failing_reader_error_reported": out.failing_reader_err, "failing_reader_value_returned": out.failing_reader_ok, "errors_or_panics": errors, "samples": samples}));
 }
